@@ -26,12 +26,13 @@ CLAIMS.update({
              "accepts exactly the encodings that terminate within 5/10 bytes and fit the width (unsigned) / returns the sign-extended payload with bounded bytesRead (signed), "
              "and Load(Encode(v)) == v for every 32/64-bit v. Validator family: a multi-value `if` without `else` typed (p)->(r) for every p, r in {i32,i64,f32,f64} is accepted iff p == r, and accepted modules run on the interpreter without internal failure and return the specified value. "
              "`ref.func x` in a body, for ALL 2^32 x (patched as a 5-byte LEB128), is accepted iff x is a function index declared outside function bodies (element items resolved through a global declare none). "
+             "One entry of the code section with ANY declared size 0..15, 0..2 local declarations (counts 0..3, arbitrary type bytes) and 0..2 body bytes: decodeCode returns a value or an error, never a Go run-time panic, and an accepted body has the declared length minus the declarations. "
              "Dead-code family: 25 immediate-carrying instruction sequences (label vectors with defaults, block types, constants whose bytes look like opcodes, memargs, prefixed opcodes, lane immediates) placed in unreachable code of a by-construction valid function: accepted by decoder, validator, interpreter compiler and wazevo front end, and both engines return the specified value for all arguments. "
              "Whole-module decoding on arbitrary bytes and the rest of function-body validation are outside this claim (see evidence bounds)."),
     "C16": dict(level="model_checking", engine="gosym", technique=E1_TECH, design_ref="DESIGN.md §5 C16",
         text="One-step induction against ghost reference models: from an arbitrary descriptor table state (0..2 symbolic mask words, symbolic items) Insert returns the lowest free key, "
              "InsertAt/Delete/Lookup act as a map for every int32 key and leave all other keys unchanged. FSContext open/close/renumber against a ghost map from states with 0, 59 or 60 descriptors open (just below / at the 64-entry word boundary of the table's bitmap) plus 0..2 opens and two arbitrary operations on descriptors around the top of the table; fd_readdir two-step protocol; the dirent cache behind it: histories of four reads (0..3 entries, 3..6 entries asked) from 0 (rewind) or any cookie of the previous read return exactly the slice of ['.', '..', entries] that starts there. "
-             "fd_renumber to ANY target descriptor 6..2^31-1 (table growth by a symbolic amount, sparse-array model) is atomic: on success the file is under the target only, on failure still under the source, never closed, other descriptors unaffected. "
+             "fd_renumber of an open file to ANY target descriptor 0..2^31-1 except the other open file (pre-opens, itself, free slots, far above the table: growth by a symbolic amount, sparse-array model) is atomic: on success the file is under the target only, on failure still under the source, never closed, other descriptors unaffected. "
              "Read/write/seek content and OS file semantics are outside the claim."),
     "C17": dict(level="model_checking", engine="gosym", technique=E1_TECH, design_ref="DESIGN.md §5 C17",
         text="For all 2^80 path_open flag words (dirflags, oflags, fdflags, rights) and all 2^32 Oflag words, what a read-only mount forwards to the wrapped file system contains none of "
@@ -79,7 +80,7 @@ CLAIMS.update({
     "C07": dict(level="model_checking", engine="gosym", technique=E1_TECH, design_ref="DESIGN.md §5 C07",
         text="Interpreter side, compiled with close-on-context-done: for 10 cycle shapes (loop br / br_if / br_table, nested loops, self and mutual recursion, return_call self and mutual, call_indirect and "
              "return_call_indirect cycles) with every branch condition symbolic, a module closed before the cycle ends the call with the exit error for its cause within a step budget (exceeding the budget is the violation, replayed "
-             "natively as a hang); a close arriving from a host callback at round 0..2 stops the guest at the next check; a call with an already-done context returns the matching exit code and closes the module. "
+             "natively as a hang); a close arriving from a host callback at round 0..2 stops the guest at the next check; a call with an already-done context - a hand-written one, a real context.WithCancel, and a real context.WithCancelCause cancelled with a custom cause - returns the matching exit code and closes the module. "
              "The watcher goroutine is not scheduled in the model (its effect is applied explicitly); Cycle shapes include switch-in-loop forms (the loop repeated only through a br_table whose first label is a block, or as the default). Cross-module: each cycle shape running in a function imported from another module, entered directly (depth 1) or through another function of that module (depth 2), stops when the module the call was made on is closed. Compiler front end: for each cycle shape (incl. tail calls; with and without imported functions) the optimised SSA compiled with close-on-context-done leaves through the exit-code check within the step bound once the module is closed, "
              "for all branch conditions. Wall-clock promptness, the watcher goroutine and the native call engine are outside this claim."),
     "C20": dict(level="model_checking", engine="gosym", technique=E1_TECH, design_ref="DESIGN.md §5 C20",
@@ -102,6 +103,7 @@ CLAIMS.update({
              "capture the imported global's current value; what validateConstExpression accepts names an in-range global of the expected type / in-range function. Through the real pipeline on the interpreter: a grid of "
              "exporter/importer memory limits and global types/mutabilities is accepted exactly per the import-matching relation, and afterwards stores, memory.grow and global.set through one instance are observed through the other "
              "(all addresses/values symbolic). Function references in a table shared by two instances of one compiled module and a separately compiled importer, and a directly imported function: whoever calls and however (call_indirect, return_call_indirect, call, return_call), the callee runs in the instance that defined it (its global changes, nobody else's), for all values. "
+             "Function import types: a function imported directly or through a re-exporting forwarder (whose imports of function, memory and function come in all 6 orders) with 4 declared types is accepted iff the declared type is the function's. "
              "An importer's active element segment writes the shared table item by item (ref.func installs, ref.null clears - known finding: null items are skipped). "
              "Table import limit matching, failed-instantiation rollback (see C10) and the compiler side are outside this claim."),
     "C11": dict(level="model_checking", engine="gosym", technique=E1_TECH, design_ref="DESIGN.md §5 C11",
